@@ -3,6 +3,9 @@ From Coq Require Import List Arith Bool Lia Permutation.
 From PTN Require Import TTN.Store TTN.StoreProofs TTN.Inv TTN.InvProofs TTN.InvNode.
 Import ListNotations.
 
+(* id and wire are definitions for nat; lia needs them unfolded to identify @length id with @length nat *)
+Ltac nlia := unfold id, wire in *; lia.
+
 (* ---- the node record built by create_contracted_node ------------------------------------------------ *)
 Lemma move_0_0 {A} (l l' : list A) : move 0 0 l = Some l' -> l' = l.
 Proof. destruct l as [|x t]; cbn; [discriminate|]. intros [= <-]. reflexivity. Qed.
@@ -92,7 +95,10 @@ Proof.
     rewrite (filter_seq_in (map snd d) (lp - 1)) by (intros x Hx; apply Hinlegs; lia).
     rewrite (filter_seq_out (map snd d) (lp - 1 + length cc)) by (intros x Hx Hi; apply Hinlegs in Hi; lia).
     reflexivity. }
-  rewrite Hf, Hfilt, Hlegs in S4. rewrite P2, Hids in S3. cbn in S3.
+  rewrite Hf, Hfilt, Hlegs in S4.
+  assert (S3' : children n2 = if first then pch ++ cc else cc ++ pch).
+  { rewrite S3, P2. cbn [app]. exact Hids. }
+  clear S3. rename S3' into S3.
   destruct first.
   - injection H as <-. repeat split.
     + rewrite S1. exact P1.
@@ -102,7 +108,7 @@ Proof.
   - unfold exchange_open_leg_ranges in H.
     set (nv := nvirt n2) in *.
     assert (Hnv : nv = np + length cc + length pch).
-    { unfold nv, nvirt. rewrite S3, app_length. unfold nparents. rewrite S1, P1. fold (nparents pn). fold np. lia. }
+    { unfold nv, nvirt. rewrite S3, app_length. unfold nparents. rewrite S1, P1. fold (nparents pn). fold np. nlia. }
     assert (Hl2 : nlegs n2 = N).
     { unfold nlegs. rewrite S4, !app_length, !seq_length. lia. }
     rewrite Hl2 in H.
@@ -122,7 +128,7 @@ Proof.
     replace op with (length OP) in H at 1 by (unfold OP; apply seq_length).
     rewrite <- Hvl in H at 1. rewrite <- (app_nil_r (virt ++ OP)) in H. rewrite <- app_assoc in H.
     rewrite pop_n_app in H. rewrite app_nil_r in H.
-    rewrite <- Hvl in H at 1. rewrite insert_list_end in H.
+    replace (insert_list nv OC virt) with (virt ++ OC) in H by (rewrite <- Hvl; symmetry; apply insert_list_end).
     replace (nv + oc + (nv + op - (nv + op))) with (length (virt ++ OC)) in H
       by (rewrite app_length; unfold OC; rewrite seq_length; lia).
     rewrite insert_list_end in H. injection H as <-. cbn. repeat split.
@@ -130,4 +136,268 @@ Proof.
     + rewrite S2. exact P4.
     + exact S3.
     + unfold ccn_perm, virt. rewrite <- !app_assoc. reflexivity.
+Qed.
+
+(* ---- replace_node_in_neighbours ---------------------------------------------------------------------- *)
+Definition reparent (new : id) (chs : list id) (k : id) (n : node) : node :=
+  if memb k chs && negb (Nat.eqb k new) then with_parent n (Some new) else n.
+
+Lemma set_parent_of_aget new l ch k :
+  aget k (set_parent_of new l ch)
+  = if Nat.eqb k ch then option_map (fun n => with_parent n (Some new)) (aget k l) else aget k l.
+Proof.
+  unfold set_parent_of. destruct (aget ch l) as [cn|] eqn:E.
+  - rewrite aget_aset. destruct (Nat.eqb_spec k ch) as [->|Hne]; [rewrite E; reflexivity|reflexivity].
+  - destruct (Nat.eqb_spec k ch) as [->|Hne]; [rewrite E; reflexivity|reflexivity].
+Qed.
+
+Lemma set_parent_of_keys new l ch : akeys (set_parent_of new l ch) = akeys l.
+Proof.
+  unfold set_parent_of. destruct (aget ch l) as [cn|] eqn:E; [|reflexivity].
+  eapply akeys_aset_mem. exact E.
+Qed.
+
+Definition reparent_fold (new : id) (chs : list id) (l : list (id * node)) :=
+  fold_left (fun l c => if Nat.eqb c new then l else set_parent_of new l c) chs l.
+
+Lemma reparent_fold_aget new chs : forall l k,
+  aget k (reparent_fold new chs l) = option_map (reparent new chs k) (aget k l).
+Proof.
+  unfold reparent_fold. induction chs as [|ch t IH]; intros l k.
+  - cbn. destruct (aget k l); reflexivity.
+  - cbn [fold_left]. rewrite IH. unfold reparent. cbn [memb existsb].
+    destruct (Nat.eqb_spec ch new) as [->|Hne].
+    + destruct (aget k l) as [n|]; [|reflexivity]. cbn. f_equal.
+      destruct (Nat.eqb_spec k new) as [->|Hk]; cbn.
+      * rewrite !andb_false_r. reflexivity.
+      * reflexivity.
+    + rewrite set_parent_of_aget. fold (memb k t).
+      destruct (Nat.eqb_spec k ch) as [->|Hk]; cbn.
+      * destruct (aget ch l) as [n|]; [|reflexivity]. cbn. f_equal.
+        destruct (Nat.eqb_spec ch new); [congruence|]. cbn. destruct (memb ch t); reflexivity.
+      * reflexivity.
+Qed.
+
+Lemma reparent_fold_keys new chs : forall l, akeys (reparent_fold new chs l) = akeys l.
+Proof.
+  unfold reparent_fold. induction chs as [|ch t IH]; intros l; [reflexivity|].
+  cbn [fold_left]. rewrite IH. destruct (Nat.eqb ch new); [reflexivity|apply set_parent_of_keys].
+Qed.
+
+Lemma reparent_children new chs k n : children (reparent new chs k n) = children n.
+Proof. unfold reparent. destruct (_ && _); reflexivity. Qed.
+
+Lemma reparent_perm new chs k n : perm (reparent new chs k n) = perm n.
+Proof. unfold reparent. destruct (_ && _); reflexivity. Qed.
+
+Lemma reparent_shape new chs k n : shape (reparent new chs k n) = shape n.
+Proof. unfold reparent. destruct (_ && _); reflexivity. Qed.
+
+Lemma reparent_parent new chs k n :
+  parent (reparent new chs k n) = if memb k chs && negb (Nat.eqb k new) then Some new else parent n.
+Proof. unfold reparent. destruct (_ && _); reflexivity. Qed.
+
+Lemma rnin_spec s new old del s' on :
+  replace_node_in_neighbours s new old del = Some s' -> new <> old -> NoDup (akeys (nodes s)) ->
+  aget old (nodes s) = Some on ->
+  exists L, s' = set_root (upd_nodes s (fun _ => L)) (match parent on with None => Some new | Some _ => root s end)
+   /\ NoDup (akeys L)
+   /\ (forall k, aget k L =
+        if del && Nat.eqb k old then None else
+        match parent on with
+        | Some pp => if negb (Nat.eqb pp new) && Nat.eqb k pp
+                     then option_map (fun n => with_children (reparent new (children on) k n)
+                                                             (replace_first old new (children n))) (aget k (nodes s))
+                     else option_map (reparent new (children on) k) (aget k (nodes s))
+        | None => option_map (reparent new (children on) k) (aget k (nodes s))
+        end)
+   /\ (forall pp, parent on = Some pp -> pp <> new -> exists ppn, aget pp (nodes s) = Some ppn /\ In old (children ppn)).
+Proof.
+  intros H Hne Hnd Eon. unfold replace_node_in_neighbours in H.
+  destruct (Nat.eqb_spec new old) as [|_]; [congruence|]. rewrite Eon in H.
+  fold (reparent_fold new (children on) (nodes s)) in H.
+  set (l1 := reparent_fold new (children on) (nodes s)) in *.
+  assert (Hl1 : forall k, aget k l1 = option_map (reparent new (children on) k) (aget k (nodes s)))
+    by (intros k; apply reparent_fold_aget).
+  assert (Hnd1 : NoDup (akeys l1)) by (unfold l1; rewrite reparent_fold_keys; exact Hnd).
+  assert (Hfin : forall l2 : list (id * node), NoDup (akeys l2) -> NoDup (akeys (if del then adel old l2 else l2))).
+  { intros l2 H2. destruct del; [apply NoDup_akeys_adel|]; exact H2. }
+  assert (Hdel : forall (l2 : list (id * node)) k, NoDup (akeys l2) ->
+            aget k (if del then adel old l2 else l2) = if del && Nat.eqb k old then None else aget k l2).
+  { intros l2 k H2. destruct del; cbn; [apply aget_adel; exact H2|reflexivity]. }
+  destruct (parent on) as [pp|] eqn:Epp.
+  - destruct (Nat.eqb_spec pp new) as [->|Hpn].
+    + injection H as <-. exists (if del then adel old l1 else l1). repeat split.
+      * apply Hfin. exact Hnd1.
+      * intros k. rewrite Hdel by exact Hnd1. rewrite Hl1. reflexivity.
+      * intros pp' [= <-] Hc. congruence.
+    + destruct (aget pp l1) as [ppn|] eqn:Eppn; [|discriminate].
+      destruct (memb old (children ppn)) eqn:Hm; [|discriminate]. injection H as <-.
+      set (l2 := aset pp (with_children ppn (replace_first old new (children ppn))) l1).
+      assert (Hnd2 : NoDup (akeys l2)) by (apply NoDup_akeys_aset; exact Hnd1).
+      rewrite Hl1 in Eppn. destruct (aget pp (nodes s)) as [ppn0|] eqn:Eppn0; [|discriminate].
+      cbn in Eppn. injection Eppn as <-.
+      exists (if del then adel old l2 else l2). repeat split.
+      * apply Hfin. exact Hnd2.
+      * intros k. rewrite Hdel by exact Hnd2. unfold l2. rewrite aget_aset, Hl1.
+        destruct (Nat.eqb_spec k pp) as [->|Hk]; cbn; [|reflexivity].
+        rewrite Eppn0. cbn. rewrite reparent_children. reflexivity.
+      * intros pp' [= <-] _. exists ppn0. split; [exact Eppn0|]. apply memb_In.
+        rewrite reparent_children in Hm. exact Hm.
+  - injection H as <-. exists (if del then adel old l1 else l1). repeat split.
+    + apply Hfin. exact Hnd1.
+    + intros k. rewrite Hdel by exact Hnd1. rewrite Hl1. reflexivity.
+    + intros pp' Hc. discriminate.
+Qed.
+
+(* ---- the node dictionary after a contraction --------------------------------------------------------- *)
+Lemma node_eq a b : parent a = parent b -> children a = children b -> perm a = perm b -> shape a = shape b -> a = b.
+Proof. destruct a, b. cbn. intros -> -> -> ->. reflexivity. Qed.
+
+Lemma replace_first_same x l : replace_first x x l = l.
+Proof. induction l as [|y t IH]; cbn; [reflexivity|]. destruct (Nat.eqb_spec x y) as [->|]; [reflexivity|]. f_equal. exact IH. Qed.
+
+(* how a node other than p, c, new is rewritten: children of p or c get parent new, the parent of p
+   gets new in place of p *)
+Definition rt (p c new : id) (chp chc : list id) (pp : option id) (k : id) (n : node) : node :=
+  {| parent := if memb k chp || memb k chc then Some new else parent n;
+     children := if (match pp with Some q => Nat.eqb k q | None => false end)
+                 then replace_first p new (children n) else children n;
+     perm := perm n; shape := shape n |}.
+
+Lemma wf_child_parent s k n x : wf s -> aget k (nodes s) = Some n -> In x (children n) ->
+  exists xn, aget x (nodes s) = Some xn /\ parent xn = Some k.
+Proof. intros W E Hx. apply (ni_ch _ _ _ (wf_node s W k n E) x Hx). Qed.
+
+Lemma wf_parent_child s k n p : wf s -> aget k (nodes s) = Some n -> parent n = Some p ->
+  exists pn, aget p (nodes s) = Some pn /\ In k (children pn).
+Proof.
+  intros W E Hp. destruct (ni_par _ _ _ (wf_node s W k n E) p Hp) as (pn & i & E1 & E2 & _). eauto.
+Qed.
+
+Lemma rnin_same s new del : replace_node_in_neighbours s new new del = Some s.
+Proof. unfold replace_node_in_neighbours. rewrite Nat.eqb_refl. reflexivity. Qed.
+
+Lemma contract_view s p c pn cn new nt nn s4 s5 :
+  wf s -> aget p (nodes s) = Some pn -> aget c (nodes s) = Some cn -> parent cn = Some p ->
+  (new = p \/ new = c \/ ~ In new (akeys (nodes s))) ->
+  replace_node_in_neighbours (upd_tensors s (fun l => adel c (adel p l) ++ [(new, nt)])) new p true = Some s4 ->
+  replace_node_in_neighbours s4 new c true = Some s5 ->
+  let s' := upd_nodes s5 (aset new nn) in
+  NoDup (akeys (nodes s')) /\
+  aget new (nodes s') = Some nn /\
+  (p <> new -> aget p (nodes s') = None) /\ (c <> new -> aget c (nodes s') = None) /\
+  (forall k, k <> p -> k <> c -> k <> new ->
+     aget k (nodes s') = option_map (rt p c new (children pn) (children cn) (parent pn) k) (aget k (nodes s))) /\
+  root s' = (match parent pn with None => Some new | Some _ => root s end) /\
+  tensors s' = adel c (adel p (tensors s)) ++ [(new, nt)] /\ dims s' = dims s /\ next_wire s' = next_wire s.
+Proof.
+  intros W Ep Ec Hpc Hnew H4 H5.
+  set (s3 := upd_tensors s (fun l => adel c (adel p l) ++ [(new, nt)])) in *.
+  assert (Hpne : p <> c). { intros ->. apply (wf_not_self_parent s c cn W Ec Hpc). }
+  assert (Hnd : NoDup (akeys (nodes s3))) by apply (wf_nd s W).
+  assert (Hppc : parent pn <> Some c) by (apply (wf_parent_not_child s c cn p pn W Ec Hpc Ep)).
+  (* facts used to identify the rewritten records *)
+  assert (Hchp : forall k n, aget k (nodes s) = Some n -> memb k (children pn) = true -> parent n = Some p).
+  { intros k n E Hm. apply memb_In in Hm. destruct (wf_child_parent s p pn k W Ep Hm) as (xn & E1 & E2). congruence. }
+  assert (Hchc : forall k n, aget k (nodes s) = Some n -> memb k (children cn) = true -> parent n = Some c).
+  { intros k n E Hm. apply memb_In in Hm. destruct (wf_child_parent s c cn k W Ec Hm) as (xn & E1 & E2). congruence. }
+  assert (Hcin : memb c (children pn) = true).
+  { apply memb_In. destruct (wf_parent_child s c cn p W Ec Hpc) as (pn' & E1 & E2). congruence. }
+  destruct (Nat.eq_dec new p) as [->|Hnp]; [|destruct (Nat.eq_dec new c) as [->|Hnc]].
+  - (* new = p *)
+    rewrite rnin_same in H4. injection H4 as <-.
+    destruct (rnin_spec s3 p c true s5 cn H5 Hpne Hnd Ec) as (L & -> & HndL & HL & _).
+    cbn [nodes upd_nodes set_root root tensors dims next_wire]. rewrite Hpc in HL |- *.
+    repeat split.
+    + apply NoDup_akeys_aset. exact HndL.
+    + apply aget_aset_same.
+    + congruence.
+    + intros _. rewrite aget_aset_other by congruence. rewrite HL. cbn. rewrite Nat.eqb_refl. reflexivity.
+    + intros k Hk1 Hk2 _. rewrite aget_aset_other by exact Hk1. rewrite HL.
+      destruct (Nat.eqb_spec k c); [congruence|]. rewrite Nat.eqb_refl. cbn [negb andb].
+      change (nodes s3) with (nodes s). destruct (aget k (nodes s)) as [nk|] eqn:E; [|reflexivity]. cbn. f_equal.
+      apply node_eq; cbn; rewrite ?reparent_children, ?reparent_perm, ?reparent_shape; try reflexivity.
+      * rewrite reparent_parent. destruct (Nat.eqb_spec k p); [congruence|]. rewrite andb_true_r.
+        destruct (memb k (children cn)); [rewrite orb_true_r; reflexivity|]. rewrite orb_false_r.
+        destruct (memb k (children pn)) eqn:Hm; [apply (Hchp k nk E Hm)|reflexivity].
+      * rewrite replace_first_same. destruct (parent pn) as [q|]; [destruct (k =? q)|]; reflexivity.
+    + destruct (parent pn) eqn:Epp; [reflexivity|]. destruct (wf_root s W) as (r & rn & Hr & _ & _ & Hu).
+      change (root s3) with (root s). rewrite Hr. f_equal. symmetry. apply (Hu p pn Ep Epp).
+  - (* new = c *)
+    rewrite rnin_same in H5. injection H5 as <-.
+    destruct (rnin_spec s3 c p true s4 pn H4 (not_eq_sym Hpne) Hnd Ep) as (L & -> & HndL & HL & _).
+    cbn [nodes upd_nodes set_root root tensors dims next_wire].
+    repeat split.
+    + apply NoDup_akeys_aset. exact HndL.
+    + apply aget_aset_same.
+    + intros _. rewrite aget_aset_other by congruence. rewrite HL. cbn. rewrite Nat.eqb_refl. reflexivity.
+    + congruence.
+    + intros k Hk1 Hk2 _. rewrite aget_aset_other by exact Hk2. rewrite HL.
+      destruct (Nat.eqb_spec k p); [congruence|]. cbn [andb].
+      change (nodes s3) with (nodes s).
+      assert (Hpar : forall n, aget k (nodes s) = Some n ->
+                parent (reparent c (children pn) k n) = (if memb k (children pn) || memb k (children cn) then Some c else parent n)).
+      { intros n0 E. rewrite reparent_parent. destruct (Nat.eqb_spec k c); [congruence|]. rewrite andb_true_r.
+        destruct (memb k (children pn)); [reflexivity|]. cbn.
+        destruct (memb k (children cn)) eqn:Hm; [apply (Hchc k n0 E Hm)|reflexivity]. }
+      destruct (parent pn) as [q|] eqn:Epp.
+      * destruct (Nat.eqb_spec q c) as [Eq|Hqc]; [exfalso; apply Hppc; f_equal; exact Eq|]. cbn [negb andb].
+        destruct (Nat.eqb_spec k q) as [->|Hkq].
+        -- destruct (aget q (nodes s)) as [n0|] eqn:E; [|reflexivity]. cbn. f_equal.
+           apply node_eq; cbn; rewrite ?reparent_children, ?reparent_perm, ?reparent_shape, ?Nat.eqb_refl; try reflexivity.
+           apply Hpar; first [exact E|reflexivity].
+        -- destruct (aget k (nodes s)) as [n0|] eqn:E; [|reflexivity]. cbn. f_equal.
+           apply node_eq; cbn; rewrite ?reparent_children, ?reparent_perm, ?reparent_shape; try reflexivity.
+           ++ apply Hpar; first [exact E|reflexivity].
+           ++ destruct (Nat.eqb_spec k q); [congruence|reflexivity].
+      * destruct (aget k (nodes s)) as [n0|] eqn:E; [|reflexivity]. cbn. f_equal.
+        apply node_eq; cbn; rewrite ?reparent_children, ?reparent_perm, ?reparent_shape; try reflexivity.
+        apply Hpar; first [exact E|reflexivity].
+  - (* new is a fresh key *)
+    assert (Hfresh : aget new (nodes s) = None).
+    { destruct Hnew as [?|[?|Hn]]; [congruence|congruence|]. apply aget_None. exact Hn. }
+    destruct (rnin_spec s3 new p true s4 pn H4 Hnp Hnd Ep) as (L4 & -> & HndL4 & HL4 & _).
+    set (s4 := set_root (upd_nodes s3 (fun _ => L4)) (match parent pn with None => Some new | Some _ => root s3 end)) in *.
+    assert (Ec4 : aget c (nodes s4) = Some (reparent new (children pn) c cn)).
+    { cbn. rewrite HL4. destruct (Nat.eqb_spec c p); [congruence|]. cbn [andb].
+      change (nodes s3) with (nodes s). rewrite Ec.
+      destruct (parent pn) as [q|] eqn:Epp; [|reflexivity].
+      destruct (Nat.eqb_spec c q) as [Eq|]; [exfalso; apply Hppc; f_equal; symmetry; exact Eq|]. rewrite andb_false_r. reflexivity. }
+    assert (Hon5 : parent (reparent new (children pn) c cn) = Some new).
+    { rewrite reparent_parent, Hcin. destruct (Nat.eqb_spec c new); [congruence|reflexivity]. }
+    destruct (rnin_spec s4 new c true s5 _ H5 Hnc HndL4 Ec4) as (L5 & -> & HndL5 & HL5 & _).
+    rewrite Hon5 in HL5. rewrite Nat.eqb_refl in HL5. cbn [negb andb] in HL5. rewrite reparent_children in HL5.
+    cbn [nodes upd_nodes set_root root tensors dims next_wire]. rewrite Hon5.
+    assert (H4k : forall k, k <> p -> k <> c -> k <> new -> aget k L4 =
+               option_map (fun n => {| parent := if memb k (children pn) then Some new else parent n;
+                                       children := if (match parent pn with Some q => Nat.eqb k q | None => false end)
+                                                   then replace_first p new (children n) else children n;
+                                       perm := perm n; shape := shape n |}) (aget k (nodes s))).
+    { intros k Hk1 Hk2 Hk3. rewrite HL4. destruct (Nat.eqb_spec k p); [congruence|]. cbn [andb].
+      change (nodes s3) with (nodes s).
+      assert (Hpar : forall n, parent (reparent new (children pn) k n) = (if memb k (children pn) then Some new else parent n)).
+      { intros n0. rewrite reparent_parent. destruct (Nat.eqb_spec k new); [congruence|]. rewrite andb_true_r. reflexivity. }
+      destruct (parent pn) as [q|] eqn:Epp.
+      - destruct (Nat.eqb_spec q new) as [->|Hqn].
+        + exfalso. destruct (wf_parent_child s p pn new W Ep Epp) as (x & Ex & _). congruence.
+        + cbn [negb andb]. destruct (Nat.eqb_spec k q) as [->|Hkq].
+          * destruct (aget q (nodes s)) as [n0|]; [|reflexivity]. cbn. f_equal.
+            apply node_eq; cbn; rewrite ?reparent_children, ?reparent_perm, ?reparent_shape; try reflexivity. apply Hpar.
+          * destruct (aget k (nodes s)) as [n0|]; [|reflexivity]. cbn. f_equal.
+            apply node_eq; cbn; rewrite ?reparent_children, ?reparent_perm, ?reparent_shape; try reflexivity. apply Hpar.
+      - destruct (aget k (nodes s)) as [n0|]; [|reflexivity]. cbn. f_equal.
+        apply node_eq; cbn; rewrite ?reparent_children, ?reparent_perm, ?reparent_shape; try reflexivity. apply Hpar. }
+    repeat split.
+    + apply NoDup_akeys_aset. exact HndL5.
+    + apply aget_aset_same.
+    + intros _. rewrite aget_aset_other by congruence. rewrite HL5.
+      destruct (Nat.eqb_spec p c); [congruence|]. cbn [andb]. rewrite HL4. rewrite Nat.eqb_refl. reflexivity.
+    + intros _. rewrite aget_aset_other by congruence. rewrite HL5. rewrite Nat.eqb_refl. reflexivity.
+    + intros k Hk1 Hk2 Hk3. rewrite aget_aset_other by exact Hk3. rewrite HL5.
+      destruct (Nat.eqb_spec k c); [congruence|]. cbn [andb]. change (nodes s4) with L4. rewrite (H4k k Hk1 Hk2 Hk3).
+      destruct (aget k (nodes s)) as [n0|]; [|reflexivity]. cbn. f_equal.
+      apply node_eq; cbn; rewrite ?reparent_children, ?reparent_perm, ?reparent_shape; try reflexivity.
+      rewrite reparent_parent. cbn. destruct (Nat.eqb_spec k new); [congruence|]. rewrite andb_true_r.
+      destruct (memb k (children cn)); [rewrite orb_true_r; reflexivity|]. rewrite orb_false_r. reflexivity.
 Qed.
